@@ -9,6 +9,7 @@
 //	c.Send(msg, false) and never touch msg again; the subscriber may free it          (testnode mockP2P)
 //	c.Sub(topic); for msg := range c.Recv() { …; msg.Reply(c.NewMessage(…)) | msg.ReplyErr(…) }, possibly `go handle(msg)`
 //	module.Close(): c.Close() from another goroutine while the Recv loop keeps draining; then q.Close()
+//	requests to a topic nobody subscribes (disabled module; queue_test.go TestClient_WaitTimeout): only q.Close() ends them
 //
 // Oracle (from the property text, independent of the queue's implementation):
 //
@@ -43,6 +44,8 @@ const (
 	tyReply = int64(9003)
 	// knownAsync: async Send (no timeout) parked on a full low-priority channel is not woken by Close.
 	knownAsync = "C36-async-send-not-woken-by-close"
+	// knownFresh: a topic whose channel is created by a Send overlapping queue.Close() is never marked closed.
+	knownFresh = "C36-topic-created-during-queue-close"
 	// atStandstill as closeCfg.At: never reached by counting, the plan fires when the traffic stands still.
 	atStandstill = 1 << 30
 )
@@ -71,7 +74,7 @@ type opCfg struct {
 }
 
 type reqCfg struct {
-	Client int     `json:"client"` // -1: own send-only client; k: the subscribed client of topic k
+	Client int `json:"client"` // -1: own send-only client; k: the subscribed client of topic k
 	// Orphan: all ops go to topic -1, a topic nobody subscribes (a disabled module; queue_test.go does the same).
 	// Nothing ever replies there, so only queue.Close() can end its blocking calls: it is joined after the shutdown.
 	Orphan bool    `json:"orphan,omitempty"`
@@ -84,8 +87,8 @@ type reqCfg struct {
 }
 
 type closeCfg struct {
-	What       []int `json:"what"`  // k: Close() of topic k's client; len(Topics): queue.Close()
-	At         int   `json:"at"`    // fire when this many requests have been started (or when traffic stops moving)
+	What       []int `json:"what"` // k: Close() of topic k's client; len(Topics): queue.Close()
+	At         int   `json:"at"`   // fire when this many requests have been started (or when traffic stops moving)
 	GapUs      []int `json:"gap_us"`
 	Concurrent bool  `json:"concurrent"` // the closes are issued from separate goroutines
 }
@@ -476,7 +479,7 @@ func (h *harness) requester(g *gor, ri int, plain queue.Client) {
 	if win < 1 {
 		win = 1
 	}
-	quiet := win > 8 || rc.Orphan
+	quiet := win > 8
 	for i := 0; i < len(rc.Ops); i += win {
 		var pend []*pending
 		for j := i; j < i+win && j < len(rc.Ops); j++ {
@@ -612,13 +615,22 @@ func runScenario(sc *scenario) (h *harness, viol string) {
 			plains[ri] = h.q.Client()
 		}
 	}
+	if lib.Known(knownFresh) {
+		// known finding excluded by construction: the unsubscribed topic's channel exists before any Close can run
+		// (a non-blocking async send nobody will ever read), so no Send creates it while queue.Close() is sweeping
+		for ri, rc := range sc.Reqs {
+			if rc.Orphan {
+				_ = plains[ri].SendTimeout(plains[ri].NewMessage("orphan", tyAsync, nil), false, 0)
+				lib.ExcludedKnown(knownFresh)
+			}
+		}
+	}
 	for ti := range sc.Topics {
 		ti := ti
 		consumers = append(consumers, h.spawn("consumer"+h.tname[ti], func(g *gor) { h.consumer(g, ti) }))
 	}
-	for ri := range sc.Reqs {
-		ri := ri
-		if !sc.Reqs[ri].Orphan {
+	for _, rc := range sc.Reqs {
+		if !rc.Orphan {
 			h.normalReqs++
 		}
 	}
@@ -875,4 +887,64 @@ func firstLine(s string) string {
 		return s[:i]
 	}
 	return s
+}
+
+// TestKnown_TopicCreatedDuringClose: pinned search for finding C36-topic-created-during-queue-close, without rapid.
+// Senders keep issuing sync requests to never-used topics (no subscriber) while queue.Close() runs; afterwards every
+// request whose Send was accepted is waited for without timeout.  The queue is closed, so each Wait must return (O5).
+// In chain33 a Send that passed the isClosed() test before Close's sweep creates its topic after the sweep; that topic
+// is never marked closed and the Wait stays parked.  The race is not forced (no hook): a tree where it does not occur
+// within the attempts passes silently, as a fixed tree does.
+func TestKnown_TopicCreatedDuringClose(t *testing.T) {
+	defer lib.Flush()
+	const attempts, senders, perSender = 30, 8, 60
+	for a := 0; a < attempts; a++ {
+		sc := &scenario{}
+		h := &harness{sc: sc, q: queue.New("c36"), freed: map[*queue.Message]bool{}, failed: make(chan struct{}), firstInit: make(chan struct{}),
+			initiated: make([]atomic.Bool, 1), returned: make([]atomic.Bool, 1)}
+		cl := h.q.Client()
+		accepted := make(chan *queue.Message, senders*perSender)
+		var running atomic.Int64
+		var gs []*gor
+		for s := 0; s < senders; s++ {
+			s := s
+			gs = append(gs, h.spawn(fmt.Sprintf("sender%d", s), func(g *gor) {
+				for i := 0; i < perSender; i++ {
+					msg := cl.NewMessage(fmt.Sprintf("fresh-%d-%d-%d", a, s, i), tySync, &payload{Token: fmt.Sprintf("R%d", s*perSender+i)})
+					running.Add(1)
+					var err error
+					g.call("Send(fresh topic)", true, func() { err = cl.Send(msg, true) })
+					if err != nil {
+						return
+					}
+					accepted <- msg
+				}
+			}))
+		}
+		for running.Load() < senders { // every sender is sending before Close starts
+			time.Sleep(50 * time.Microsecond)
+		}
+		gs = append(gs, h.spawn("closer", func(g *gor) { h.doClose(g, 0) }))
+		viol := h.join("senders and queue.Close", gs)
+		close(accepted)
+		if viol == "" {
+			var ws []*gor
+			for msg := range accepted {
+				msg := msg
+				ws = append(ws, h.spawn("waiter("+msg.Topic+")", func(g *gor) {
+					g.call("Wait("+msg.Topic+")", true, func() { _, _ = cl.Wait(msg) })
+				}))
+			}
+			viol = h.join("waits after queue.Close returned", ws)
+		}
+		if viol != "" {
+			c := map[string]interface{}{"attempt": a, "senders": senders, "fresh_topics_per_sender": perSender}
+			if !strings.HasPrefix(viol, "O5: blocked for ever while waiting for waits after queue.Close returned") {
+				lib.Violation(t, prop, "TestKnown_TopicCreatedDuringClose", c, "%s", viol)
+			}
+			lib.KnownOrViolation(t, prop, "TestKnown_TopicCreatedDuringClose", knownFresh, c,
+				"Wait() never returns after queue.Close() when the request's topic was first used by a Send overlapping Close: "+clip(firstLine(viol), 300))
+			return
+		}
+	}
 }
